@@ -10,7 +10,7 @@
 From Coq Require Import List String Bool Arith.
 From Helm Require Import Common.Assoc Engine.Types Engine.Eff Engine.Ops Engine.Cluster Engine.Seq
   Engine.SeqProofs Engine.HooksProofsGate Engine.ContainLedger Engine.ContainProofs Engine.ContainDeployed
-  Engine.Contain Engine.ContainRefuted Engine.ContainStore Engine.HooksProofsTrace Engine.ContainReported Engine.ContainCleanup Engine.ContainAtomic.
+  Engine.Contain Engine.ContainRefuted Engine.ContainStore Engine.HooksProofsTrace Engine.ContainReported Engine.ContainCleanup Engine.ContainAtomic Engine.ContainAtomicUp.
 Import ListNotations.
 Local Open Scope string_scope.
 
@@ -110,18 +110,26 @@ Print Assumptions C03_containment_example.
 
 (* C03_cleanup_on_fail — non-atomic upgrade with cleanup-on-fail under the object-store
    cluster and a one-shot fault plan that is not a DELETE fault (such a fault could only hit
-   the clean-up itself, a second failure): the run is an execution [tr] in which, if a
-   cluster-side failure occurs, every resource of Result.Created — the list the update
-   (the only KUpdate of the trace) returned — is absent from the cluster afterwards. *)
+   the clean-up itself, a second failure), any initial ledger and cluster: if a cluster-side
+   failure occurs in the run ([run_tr] is Seq.run returning also its trace of (effect, answer)
+   pairs, C03_run_tr_is_run), every resource of Result.Created — the list the update (the
+   only KUpdate of the trace) returned — is absent from the cluster afterwards. *)
+Theorem C03_run_tr_is_run :
+  forall (K : Type) (kh : forall e : eff, K -> K * resp e * list kev) (dresp : forall e, resp e)
+         (A : Type) (f : sfaults) (p : prog A) (s : rstate K),
+    fst (run_tr K kh dresp f p s) = run K kh dresp f p s.
+Proof. exact run_tr_run. Qed.
+Print Assumptions C03_run_tr_is_run.
+
 Theorem C03_cleanup_on_fail :
-  forall rn ns fl cid vid mani hks cf w w' out t,
+  forall rn ns fl cid vid mani hks cf l0 objs0 s' out tr,
     f_atomic fl = false -> f_cleanup fl = true -> f_dry_run fl = false ->
     (forall key, cf_k cf <> Some (VDelete, key)) ->
-    run_store_op rn ns (mkOp (OpUpgrade fl cid vid mani hks) nofault cf) w = (w', out, t) ->
-    exists tr, exec (upgrade rn ns fl cid vid mani hks) tr out /\
-      (has_failure tr = true ->
-       forall cur tgt ok created, In (ER (KUpdate cur tgt) (ok, created)) tr ->
-         forall r, In r created -> amem (rkey r) (w_objs w') = false).
+    run_tr kstate (kube_handle rn ns) dead_resp nofault (upgrade rn ns fl cid vid mani hks)
+           (mkR l0 (mkK objs0 (cf_k cf) (cf_h cf) (cf_wait cf)) 0 0 false []) = (s', out, tr) ->
+    has_failure tr = true ->
+    forall cur tgt ok created, In (ER (KUpdate cur tgt) (ok, created)) tr ->
+      forall r, In r created -> amem (rkey r) (objs (ks s')) = false.
 Proof. exact cleanup_on_fail. Qed.
 Print Assumptions C03_cleanup_on_fail.
 
@@ -150,6 +158,46 @@ Example C03_atomic_install_example :
                = (w', OErr EOtherErr, t) /\ w_led w' = [] /\ w_objs w' = [].
 Proof. exact atomic_install_example. Qed.
 Print Assumptions C03_atomic_install_example.
+
+(* C03_atomic_upgrade_ledger_partial — the LEDGER half of the atomic-upgrade clause, for every
+   cluster behaviour (no storage fault, no crash, no history limit, revisions numbered from 1,
+   C01's NoDup): after a failed atomic upgrade every new revision is either the upgrade's own
+   revision — failed, or superseded by the aborted recovery (K6) — or the revision of the
+   automatic rollback, which is a copy (manifest, hooks, chart, values) of the HIGHEST stored
+   revision that was superseded or deployed, and is deployed or failed: never pending.
+   PARTIAL: that the rollback's revision exists and is deployed, and that the cluster matches
+   its manifest, is not proved (K6, K9 are counterexamples without further hypotheses); the
+   runtime oracle and the correspondence run carry that part. *)
+Theorem C03_atomic_upgrade_ledger_partial :
+  forall (K : Type) (kh : forall e : eff, K -> K * resp e * list kev) (dresp : forall e, resp e)
+         (rn ns : string) fl cid vid mani hks (l0 : list release) (k0 : K) l' k' c t,
+    f_atomic fl = true -> f_dry_run fl = false -> f_max_history fl = 0 ->
+    NoDup (revs l0) -> (forall x, In x l0 -> rev x <> 0) ->
+    run_op K kh dresp rn ns (OpUpgrade fl cid vid mani hks) nofault l0 k0 = (l', k', OErr c, t) ->
+    forall y, In y l' -> ~ In (rev y) (revs l0) ->
+      exists last, max_rev_of l0 = Some last /\
+        ((rev y = S (rev last) /\ (st y = SFailed \/ st y = SSuperseded))
+         \/
+         (rev y = S (S (rev last)) /\ (st y = SFailed \/ st y = SDeployed) /\
+          exists g, In g l0 /\ (st g = SSuperseded \/ st g = SDeployed) /\
+                    (forall x, In x l0 -> (st x = SSuperseded \/ st x = SDeployed) -> rev x <= rev g) /\
+                    manifest y = manifest g /\ hooks y = hooks g /\
+                    chart_id y = chart_id g /\ config_id y = config_id g)).
+Proof. exact atomic_upgrade_ledger. Qed.
+Print Assumptions C03_atomic_upgrade_ledger_partial.
+
+(* install {a,b}; upgrade --atomic to {a',b'} whose readiness wait fails: history
+   1:superseded 2:failed 3:deployed, revision 3 carries the manifest of revision 1 and the
+   cluster holds a, b with the data of revision 1 *)
+Example C03_atomic_upgrade_example :
+  exists w, final au_history = Some (w, OErr EOtherErr) /\
+    statuses (w_led w) = [(1, SSuperseded); (2, SFailed); (3, SDeployed)] /\
+    map (fun r => (rev r, manifest r)) (filter (fun r => Nat.eqb (rev r) 3) (w_led w))
+      = [(3, [cmr "a" "v1"; cmr "b" "v1"])] /\
+    map fst (w_objs w) = ["ConfigMap/a"; "ConfigMap/b"] /\
+    aget "d:k" (match aget "ConfigMap/a" (w_objs w) with Some f => f | None => [] end) = Some "v1".
+Proof. exact atomic_upgrade_example. Qed.
+Print Assumptions C03_atomic_upgrade_example.
 
 (* Known finding K6 — why the atomic clause needs its hypothesis: install {a,b};
    upgrade --atomic to {a'} with PATCH a rejected: the automatic rollback aborts on the
